@@ -1309,7 +1309,14 @@ func (f *FnVC) ret(x *ssa.Return) {
 		if id, ok := e.E.(SIdent); ok && id.Name == "nopanic" {
 			continue
 		}
-		f.oblige("ensures", e.Text, f.trBool(env, e.E), x.Pos()).Prop = e.Prop
+		if e.Prop != "" && f.g.curProp != "" && e.Prop != f.g.curProp {
+			continue // clause belongs to another property's check
+		}
+		txt := e.Text
+		if e.Tag != "" && e.Tag != "local" {
+			txt = "[" + e.Tag + "] " + txt
+		}
+		f.oblige("ensures", txt, f.trBool(env, e.E), x.Pos()).Prop = e.Prop
 	}
 }
 
